@@ -35,7 +35,7 @@ def cases(draw, mode, nums=("frac",), tmax=2):
         t = draw(st.integers(1, tmax))
     return {"curve": c, "t": t, "mode": mode, "via": draw(st.sampled_from(["method", "setter"])),
             "twin_first": draw(st.integers(0, 2)) == 0,
-            "tolerance": draw(st.sampled_from(["default", "none"])),
+            "tolerance": draw(st.sampled_from(["default", "none", "zero"])),
             "badtimes": draw(st.sampled_from([0, -1, "1.5", "a"]))}
 
 
@@ -218,6 +218,10 @@ def check_generic(case, out):
     try:
         if tol == "none":
             curve.degree_decrease(t, None)
+        elif tol == "zero":
+            # an explicit tolerance of exactly zero (legal: tolerance >= 0) asks for exact reductions only
+            out.cls("tolerance=0")
+            curve.degree_decrease(t, (0, F(0), 0.0)[t % 3])
         else:
             curve.degree_decrease(t)
         exc = None
@@ -247,6 +251,10 @@ def check_generic(case, out):
         wit = oracle.same_function(ref, after)
         if wit is not None:
             out.fail("reduction-not-inverse", klass, f"U={ref.U} P={ref.P} w={ref.w}: at u={wit[0]} {wit[1]} vs {wit[2]}")
+        return
+    if tol == "zero":
+        out.fail("silently-lossy", klass + ";tolerance=0",
+                 f"degree_decrease({t}, 0) succeeded on U={ref.U} P={ref.P} w={ref.w}, which is not representable at degree {newp}")
         return
     if tol != "none":
         # succeeded with the default tolerance although not representable: the deviation must be within the bound
